@@ -613,6 +613,213 @@ fn ps_case(rng: &mut Rng, out: &mut Sink, case: usize) {
     out.nontrivial(&sig);
 }
 
+// ---------------------------------------------------------------- the real store: do the callers keep the protocol?
+
+fn fnv64(bytes: &[u8]) -> u64 {
+    let mut h = 0xcbf29ce484222325u64;
+    for b in bytes {
+        h = (h ^ *b as u64).wrapping_mul(0x100000001b3);
+    }
+    h
+}
+
+struct Observed {
+    ln: Option<std::fs::File>,
+    ops: Vec<String>,
+    imp: Vec<String>,
+    fails: Vec<String>,
+    hits: u64,
+    misses: u64,
+    inserts: u64,
+    reinserts_of_cached_pn: u64,
+    evicted_shards: u64,
+    cached: BTreeSet<u32>,
+}
+
+/// `caches-db`: real stores with tiny leaf caches (0 / 1 MiB = 0 / 8 leaves per shard), fat values (3 per leaf,
+/// hundreds of leaves, page numbers recycled from the second commit on), 1…4 commit workers.  Every `LeafCache::get`
+/// (observed under the shard lock), `insert` (observed at its two call sites) and per-shard `evict` of the REAL code
+/// is (a) checked against the `ln` FILE: a hit must return, an insertion must pass, byte for byte the page stored at
+/// that page number at that moment — the callers' protocol `LProto` of the transparency theorem — and (b) replayed by
+/// the Lean mirror (`lcq` lines: the mirror must predict every hit and miss of the real run).  Values read through
+/// `Nomt::read` and sessions are compared with a `BTreeMap`.
+pub fn run_db(seed: u64, cases: usize, out: &mut Sink) {
+    use nomt::hasher::Blake3Hasher;
+    use nomt::verif_api::caches::{set_leaf_cache_observer, LeafCacheCall};
+    use nomt::{KeyReadWrite, Nomt, Options, SessionParams, WitnessMode};
+    use std::os::unix::fs::FileExt;
+    use std::sync::{Arc, Mutex};
+    let mut rng = Rng::new(seed ^ 0xdb_cac4e5);
+    let pid = std::process::id();
+    for case in 0..cases {
+        let mut r = rng.fork();
+        out.mark_case(format!("caches-db case {case}"));
+        let dir = format!("/dev/shm/nomt-verif-caches-{pid}-{seed}-{case}");
+        let _ = std::fs::remove_dir_all(&dir);
+        let leaf_mib = *r.pick(&[0usize, 1, 1]);
+        let workers = *r.pick(&[1usize, 1, 2, 4]);
+        let dbg = cfg!(debug_assertions) as u8;
+        let obs = Arc::new(Mutex::new(Observed {
+            ln: None, ops: vec![format!("lc new {dbg} 32 {leaf_mib}")], imp: vec![format!("ok max={}*32", leaf_mib * 256 / 32)],
+            fails: vec![], hits: 0, misses: 0, inserts: 0, reinserts_of_cached_pn: 0, evicted_shards: 0, cached: BTreeSet::new(),
+        }));
+        let o2 = obs.clone();
+        set_leaf_cache_observer(Some(Box::new(move |kind, shard, pn, bytes| {
+            let mut o = o2.lock().unwrap();
+            let stored = |o: &Observed| -> Option<Vec<u8>> {
+                let mut buf = vec![0u8; 4096];
+                o.ln.as_ref().and_then(|f| f.read_exact_at(&mut buf, pn as u64 * 4096).ok()).map(|_| buf)
+            };
+            match kind {
+                LeafCacheCall::Get => {
+                    o.ops.push(format!("lcq get {shard} {pn}"));
+                    match bytes {
+                        Some(b) => {
+                            o.hits += 1;
+                            if stored(&o).as_deref() != Some(b) {
+                                o.fails.push(format!("C13 leaf cache protocol: get({pn}) HIT returns a leaf that is not page {pn} of the ln file"));
+                            }
+                            o.imp.push(fnv64(b).to_string());
+                        }
+                        None => { o.misses += 1; o.imp.push("-".into()); }
+                    }
+                }
+                LeafCacheCall::Insert => {
+                    let b = bytes.unwrap();
+                    o.inserts += 1;
+                    if !o.cached.insert(pn) { o.reinserts_of_cached_pn += 1; }
+                    if stored(&o).as_deref() != Some(b) {
+                        o.fails.push(format!("C13 leaf cache protocol: insert({pn}, leaf) passes a leaf that is not page {pn} of the ln file"));
+                    }
+                    o.ops.push(format!("lcq insert {shard} {pn} {}", fnv64(b)));
+                    o.imp.push("ok".into());
+                }
+                LeafCacheCall::Evict => {
+                    o.evicted_shards += 1;
+                    o.ops.push(format!("lcq evict1 {shard} {pn}"));
+                    o.imp.push("ok".into());
+                }
+            }
+        })));
+        let mut o = Options::new();
+        o.path(&dir);
+        o.commit_concurrency(workers);
+        o.hashtable_buckets(8192);
+        o.rollback(false);
+        o.warm_up(r.chance(1, 3));
+        o.page_cache_size(*r.pick(&[1usize, 4]));
+        o.page_cache_upper_levels(r.below(4));
+        o.prepopulate_page_cache(r.chance(1, 2));
+        o.leaf_cache_size(leaf_mib);
+        o.io_workers(r.range(1, 2));
+        o.preallocate_ht(false);
+        let db = match catch_unwind(AssertUnwindSafe(|| Nomt::<Blake3Hasher>::open(o))) {
+            Ok(Ok(db)) => db,
+            _ => { out.fail(format!("C10 caches-db: open failed (case {case})")); set_leaf_cache_observer(None); continue; }
+        };
+        obs.lock().unwrap().ln = std::fs::File::open(format!("{dir}/ln")).ok();
+        let mut view: BTreeMap<Key, Vec<u8>> = BTreeMap::new();
+        let mut keys: Vec<Key> = Vec::new();
+        let ncommits = r.range(3, 6);
+        for commit in 0..ncommits {
+            let mut actuals: BTreeMap<Key, KeyReadWrite> = BTreeMap::new();
+            let nw = if commit == 0 { r.range(150, 1000) } else { r.range(20, 150) };
+            for _ in 0..nw {
+                let k = if !keys.is_empty() && r.chance(1, 2) { *r.pick(&keys) } else { let k = r.bytes32(); keys.push(k); k };
+                if r.chance(1, 6) {
+                    actuals.insert(k, KeyReadWrite::Write(None));
+                } else {
+                    let len = r.range(900, 1300);
+                    let mut v = vec![(commit as u8) ^ k[0]; len];
+                    v[0] = r.below(256) as u8;
+                    actuals.insert(k, KeyReadWrite::Write(Some(v)));
+                }
+            }
+            let s = db.begin_session(SessionParams::default().witness_mode(WitnessMode::disabled()));
+            // reads through the session before finishing it
+            for _ in 0..r.range(0, 20) {
+                if keys.is_empty() { break; }
+                let k = *r.pick(&keys);
+                match s.read(k) {
+                    Ok(v) => if v.as_deref() != view.get(&k).map(|x| &x[..]) {
+                        out.fail(format!("C01 caches-db: session read of {} differs from the committed value (case {case} commit {commit})", hex(&k)));
+                    },
+                    Err(e) => out.fail(format!("C01 caches-db: session read failed: {e:#}")),
+                }
+                out.count("db_session_read");
+            }
+            let list: Vec<(Key, KeyReadWrite)> = actuals.iter().map(|(k, v)| (*k, v.clone())).collect();
+            match catch_unwind(AssertUnwindSafe(|| s.finish(list).and_then(|f| f.commit(&db)))) {
+                Ok(Ok(_)) => {
+                    for (k, v) in actuals {
+                        match v { KeyReadWrite::Write(Some(v)) => { view.insert(k, v); } _ => { view.remove(&k); } }
+                    }
+                }
+                _ => { out.fail(format!("C01 caches-db: commit failed (case {case} commit {commit})")); break; }
+            }
+            out.count("db_commit");
+            // direct reads: hits, misses with insertion, recycled page numbers
+            for _ in 0..r.range(20, 120) {
+                let k = if r.chance(1, 10) { r.bytes32() } else { *r.pick(&keys) };
+                match db.read(k) {
+                    Ok(v) => if v.as_deref() != view.get(&k).map(|x| &x[..]) {
+                        out.fail(format!("C01 caches-db: read of {} differs from the committed value (case {case} commit {commit}, leaf cache {leaf_mib} MiB)", hex(&k)));
+                    },
+                    Err(e) => out.fail(format!("C01 caches-db: read failed: {e:#}")),
+                }
+                out.count("db_read");
+            }
+        }
+        drop(db);
+        set_leaf_cache_observer(None);
+        let _ = std::fs::remove_dir_all(&dir);
+        let mut o = obs.lock().unwrap();
+        for (a, b) in std::mem::take(&mut o.ops).into_iter().zip(std::mem::take(&mut o.imp)) {
+            out.line(a, b);
+        }
+        for f in std::mem::take(&mut o.fails) {
+            out.fail(format!("{f} (case {case}, leaf cache {leaf_mib} MiB, {workers} workers)"));
+        }
+        out.add("db_leaf_get_hit", o.hits);
+        out.add("db_leaf_get_miss", o.misses);
+        out.add("db_leaf_insert", o.inserts);
+        out.add("db_leaf_insert_of_page_number_inserted_before", o.reinserts_of_cached_pn);
+        out.add("db_leaf_evict_shard", o.evicted_shards);
+        out.count(&format!("db_leaf_cache_{leaf_mib}MiB"));
+        out.nontrivial(&format!("db {case} {} {} {}", o.hits, o.misses, o.inserts));
+    }
+}
+
+/// `caches-open0` (directed, NOT part of a registered run): `Nomt::open` with `page_cache_size(0)` and with
+/// `leaf_cache_size(0)` — the point `T13_cache_new_total` excludes / includes.
+pub fn run_open0(_seed: u64, _cases: usize, out: &mut Sink) {
+    use nomt::hasher::Blake3Hasher;
+    use nomt::{Nomt, Options};
+    let pid = std::process::id();
+    for (what, page, leaf) in [("leaf_cache_size(0)", 1usize, 0usize), ("page_cache_size(0)", 0, 1)] {
+        let dir = format!("/dev/shm/nomt-verif-caches-open0-{pid}");
+        let _ = std::fs::remove_dir_all(&dir);
+        let mut o = Options::new();
+        o.path(&dir);
+        o.hashtable_buckets(4096);
+        o.preallocate_ht(false);
+        o.page_cache_size(page);
+        o.leaf_cache_size(leaf);
+        let r = catch_unwind(AssertUnwindSafe(|| Nomt::<Blake3Hasher>::open(o).map(|_| ())));
+        let imp = match r {
+            Ok(Ok(())) => "ok".to_string(),
+            Ok(Err(e)) => format!("err {e:#}"),
+            Err(p) => format!("PANIC {}", p.downcast_ref::<String>().cloned().or(p.downcast_ref::<&str>().map(|s| s.to_string())).unwrap_or_default()),
+        };
+        println!("Nomt::open with {what}: {imp}");
+        if imp.starts_with("PANIC") {
+            out.fail(format!("C13 Nomt::open with {what} panics ({imp}); every other cache size opens the store and gives the same results"));
+        }
+        out.count(&format!("open0_{}", if imp == "ok" { "ok" } else { "not_ok" }));
+        let _ = std::fs::remove_dir_all(&dir);
+    }
+}
+
 pub fn run(seed: u64, cases: usize, out: &mut Sink) {
     let mut rng = Rng::new(seed ^ 0x51_cac4e5);
     let only: Option<usize> = std::env::var("VH_CACHES_ONLY").ok().and_then(|s| s.parse().ok());
